@@ -353,7 +353,7 @@ func runC04(tier string) int {
 	}) {
 		r.NotExhaustive("C20 programs not completed")
 	}
-	mixed := mixedNestingPrograms(tier)
+	mixed := append(mixedNestingPrograms(tier), hugePrograms(tier)...)
 	if !r.Parallel(uint64(len(mixed)), func(w int, i uint64) {
 		scripts := []*model.Script{mixed[i].Script}
 		fp := &fileProgram{Desc: mixed[i].Desc, Src: model.Print(scripts), Owners: []string{"S"}, UserLabels: model.UserLabels(scripts), External: ext, Scripts: scripts}
